@@ -20,6 +20,17 @@ CLAIMS = {
          "and IDecode of an independently assembled conformant image returns the carried values. The oracle is the table, never the sibling function. "
          "Known findings D2, D3d, D28 (document vs code) carved out and replayed.",
          "The layout tables are trusted transcriptions of doc/*.pdf (A-TABLES). "),
+ "C04": ("Per-call contracts of the four frame extractors over an abstract ConnReader (ghost buffered octets / ghost stream): a complete frame is returned exactly and exactly its octets are consumed; "
+         "an incomplete buffer gives ErrPacketNotComplete and consumes nothing; a prefix below 4 is refused; the blocking extractor returns a whole frame or an error, never a partial frame. "
+         "Arrival patterns are discharged by the prefix-stability lemmas (a complete frame stays the same frame whatever arrives after it; the length field depends on the first four octets only), proved from T0.",
+         "ConnReader / io.ReadFull behave as the interface comment says (A-CONN); the induction over the chunk sequence that combines the per-call contract with the lemmas is a paper step. "),
+ "C08": ("Pack and Unpack proved bit-exactly against TS 23.038 6.1.2.1.1 for all lengths (bit-vector + array obligations, loop invariants per 8-septet block, CR filler, the end-of-message carve-out exactly as stated in the property); "
+         "the four alphabet tables compared entry by entry with the independently transcribed TS 23.038 table (ground); Encode proved to emit only table codes with every ESC followed by an extension code and to refuse other runes; "
+         "Decode / ValidateGSM7Buffer proved total, terminating and within the allocation budget.",
+         "Not proved: the rune-level function Encode/Decode compute (UTF-8 reasoning) and the two stream transformers (textual duplicates of the proved loops) - see DESIGN.md; int(math.Ceil(float64(n)*7/8)) == (7n+7)/8 for n < 2^22 is assumed (A-CEIL). "),
+ "C15": ("GenConnectAuth, GenConnectRespAuthISMG, genAuthenticatorClient, TimeStamp2Str, cmpp20.NewConnect and smgp30.NewLogin proved to compute the protocol's digest formula (md5 uninterpreted, 16 octets) over account, zero padding, secret and the ten-digit timestamp that the PDU carries; "
+         "the decode clauses of the six 16-octet authenticator slots (C01) are part of this check, so the peer's recomputation equals what it receives. Known finding D3d (SMGP login response slot) carved out.",
+         "crypto/md5, fmt %010d, time formatting and strconv.Atoi of the MMDDhhmmss string are assumed models (A-MD5, A-FMT10, A-ATOI). "),
  "C10": ("Loop-free proofs for every PDU type: GenEmptyResponse has the protocol's response type, the request's sequence id and command|0x80000000 (responses: nil); "
          "GetCommand equals the table command (bind flavours: the header id); SetSequenceID/GetSequenceID agree with the header member that C02 places at the header offset; "
          "each dispatcher returns exactly the table's type for every command id its package can encode, ErrUnsupportedPacket (never nil,nil) for all other 32-bit ids.",
